@@ -16,7 +16,7 @@ import numpy as np
 
 from symx import term as tm, solver
 from symx.sym import explore, Inconclusive, ctx
-from symx.symint import SInt, sym_int
+from symx.symint import SInt, sym_int, sym_set, sym_sorted
 from symx.shapearr import ShapeArr, append as sa_append, S
 from symx.harness import FuncTrace, source_digest
 from .ch.fakefs import FakeFS, FakeOS, FakeNP, Arr
@@ -241,8 +241,10 @@ def run_case(args):
         cmax = (len(chunks) - 1) if case['file_layout'] == 'per-process' else 'in file'
         try:
             try:
-                out = reading.read_ET_group_or_var(list(case['variables']), list(files), cmax, it=[it1], rl=0)
-                probs = check_placement(out, case['variables'], [it1], 0, chunks, lo, hi, g)
+                # iterations requested out of order: rows must come back in sorted order (that is how
+                # read_ET_variables labels them)
+                out = reading.read_ET_group_or_var(list(case['variables']), list(files), cmax, it=[it1, it0], rl=0)
+                probs = check_placement(out, case['variables'], [it0, it1], 0, chunks, lo, hi, g)
                 returned = True
             except Inconclusive:
                 raise
@@ -298,7 +300,8 @@ def replay_case(tier, idx, model):
     full = np.arange(np.prod([h - l + 2 * gg for l, h, gg in zip(lo_v, hi_v, g)]), dtype=float).reshape(
         [hi_v[2] - lo_v[2] + 2 * g[2], hi_v[1] - lo_v[1] + 2 * g[1], hi_v[0] - lo_v[0] + 2 * g[0]])
     root = tempfile.mkdtemp(prefix='c11_')
-    it1 = int(model.get('it1', 1))
+    it1 = int(model.get('it1', 3))
+    it0 = int(model.get('it0', 0))
     files = []
     try:
         multi = len(chunks) > 1
@@ -311,23 +314,27 @@ def replay_case(tier, idx, model):
                 files.append(fname)
             with h5py.File(fname, 'a') as f:
                 for vi, v in enumerate(case['variables']):
-                    key = f'ADMBASE::{v} it={it1} tl=0 rl=0' + (f' c={cnum}' if (multi or case['file_layout'] == 'per-process') else '')
-                    sl = tuple(slice(clo[ax] - lo_v[ax], chi[ax] - lo_v[ax] + 2 * g[ax]) for ax in (2, 1, 0))
-                    d = f.create_dataset(key, data=full[sl] + 1000 * vi)
-                    d.attrs['cctk_nghostzones'] = np.array(g, dtype=np.int32)
-                    d.attrs['iorigin'] = np.array([clo[0] - g[0], clo[1] - g[1], clo[2] - g[2]], dtype=np.int32)
-                    d.attrs['time'] = 1.5
+                    for itv in (it0, it1):
+                        key = f'ADMBASE::{v} it={itv} tl=0 rl=0' + (f' c={cnum}' if (multi or case['file_layout'] == 'per-process') else '')
+                        sl = tuple(slice(clo[ax] - lo_v[ax], chi[ax] - lo_v[ax] + 2 * g[ax]) for ax in (2, 1, 0))
+                        d = f.create_dataset(key, data=full[sl] + 1000 * vi + 7 * itv)
+                        d.attrs['cctk_nghostzones'] = np.array(g, dtype=np.int32)
+                        d.attrs['iorigin'] = np.array([clo[0] - g[0], clo[1] - g[1], clo[2] - g[2]], dtype=np.int32)
+                        d.attrs['time'] = 1.5 + itv
         cmax = (len(chunks) - 1) if case['file_layout'] == 'per-process' else 'in file'
         try:
-            out = reading.read_ET_group_or_var(list(case['variables']), files, cmax, it=[it1], rl=0)
+            out = reading.read_ET_group_or_var(list(case['variables']), files, cmax, it=[it1, it0], rl=0)
         except Exception as e:  # noqa
             return dict(raised=repr(e)[:150], reproduces=supported)
         want = np.transpose(full[g[2]:full.shape[0] - g[2], g[1]:full.shape[1] - g[1], g[0]:full.shape[2] - g[0]], (2, 1, 0))
         bad = []
         for vi, v in enumerate(case['variables']):
-            got = out[v][0]
-            if got.shape != want.shape or not np.array_equal(got, want + 1000 * vi):
-                bad.append(f'{v}: shape {got.shape} vs {want.shape}')
+            for k_, itv in enumerate(sorted((it0, it1))):
+                got = out[v][k_]
+                if got.shape != want.shape or not np.array_equal(got, want + 1000 * vi + 7 * itv):
+                    bad.append(f'{v} row {k_}: shape {got.shape} vs {want.shape} or data of another iteration')
+        if list(out['t']) != [1.5 + itv for itv in sorted((it0, it1))]:
+            bad.append('t column not in the order of the sorted iterations')
         return dict(problems=bad, reproduces=bool(bad))
     finally:
         shutil.rmtree(root, ignore_errors=True)
